@@ -88,7 +88,7 @@ class Gen:
                     if t1 in NUM or (t1 == "Any" and "anyarith" in P):
                         for t2, b in self.gen(ctx, n2):
                             if t2 in NUM or (t2 == "Any" and "anyarith" in P):
-                                for op in ("+", "*", "/"):
+                                for op in ("+", "*", "/") + (("-", "//", "%") if "moreops" in P else ()):
                                     yield (promote(t1, t2, op), f"({a} {op} {b})")
                                 yield ("bool", f"({a} > {b})")
                     if t1 == "bool":
@@ -147,6 +147,7 @@ def type_problem(lib, want, g):
 
 
 FULL = ("const", "len", "neg", "not", "selectmany", "dict", "ifexp", "anyattr", "anyarith")
+OPS = ("const", "moreops")
 
 
 class C08(Check):
@@ -179,6 +180,9 @@ class C08(Check):
             out.append(Space(f"{mname}: nested-then-outer", {"model": mname, "shape": "(A op B), A contains a nested lambda, "
                              "B uses the outer parameter; parameter names distinct and all equal"},
                              (lambda mname=mname: self._combos(mname, 5 if Q else 6)), runner="run_chain"))
+            if mname == "plain":
+                out.append(Space("plain: every arithmetic operator", {"operators": "+ - * / // %", "body_size": 4 if Q else 5},
+                                 (lambda Q=Q: self._arith(4 if Q else 5)), runner="run_chain"))
             k = 3 if Q else 4
             out.append(Space(f"{mname}: chains K<=3 bodies<={k}", {"model": mname, "body_size": k, "stages": "2..3"},
                              (lambda mname=mname, k=k: self._chains(mname, k, 3 if not Q else 2)), runner="run_chain"))
@@ -193,6 +197,16 @@ class C08(Check):
             for t, src in gen.gen((("e", root),), size):
                 for op in self._ops_for(t):
                     out.append((mname, ((op, src),)))
+        return out
+
+    def _arith(self, n):
+        g, d = models.load("plain")
+        gen = Gen(d, OPS)
+        out = []
+        for size in range(3, n + 1):
+            for t, src in gen.gen((("e", ("Obj", "Ev")),), size):
+                if any(o in src for o in (" - ", " // ", " % ")):
+                    out.append(("plain", (("Select", src),)))
         return out
 
     def _combos(self, mname, n):
@@ -260,7 +274,7 @@ class C08(Check):
         mname, stages = payload
         bind.reset_type_registries()
         g, d = models.load(mname)
-        gen = Gen(d, FULL)
+        gen = Gen(d, FULL + ("moreops",))
 
         class DS(EventDataset):
             async def execute_result_async(self, a, title=None):
